@@ -350,7 +350,7 @@ class StmtMixin:
     def x_If(self, s):
         ctx = self.ctx
         v = self.eval(s.test)
-        if isinstance(v, Opaque):
+        if isinstance(v, Opaque) or getattr(v, "unknown", False):
             take = ctx.decide_opaque("if-opaque")
         else:
             t = ctx.truth(v)
@@ -467,12 +467,15 @@ class StmtMixin:
         if spec is None and items is not None:
             self.unroll(s, items)
             return
-        if spec is None and isinstance(it, Opaque):
+        if spec is None and (isinstance(it, Opaque) or getattr(it, "unknown", False)):
             self.opaque_loop(s)
             return
         if spec is None:
-            ct = getattr(self.frames[-1], "contract", None)
+            ct = getattr(self.frames[-1], "contract", None) or self.frames[0].contract
             k = getattr(ct, "unwind", None)
+            if k == "havoc":
+                self.opaque_loop(s, it)
+                return
             if k:
                 self.unwind_for(s, it, k)
                 return
@@ -488,8 +491,13 @@ class StmtMixin:
         ctx = self.ctx
         spec, ordinal = self.loop_spec(s)
         if spec is None:
-            ct = getattr(self.frames[-1], "contract", None)
+            ct = getattr(self.frames[-1], "contract", None) or self.frames[0].contract
             k = getattr(ct, "unwind", None)
+            if k == "havoc":
+                fake = ast.For(target=ast.Name(id="_while", ctx=ast.Store()), iter=s.test, body=s.body, orelse=s.orelse)
+                self.eval_tolerant(s.test)
+                self.opaque_loop(fake)
+                return
             if k:
                 for _ in range(k):
                     t = ctx.truth(self.eval(s.test))
@@ -547,17 +555,30 @@ class StmtMixin:
         self.engine.note_bounded(ctx, f"for loop line {s.lineno} unwound {k} times")
         self.exec_block(s.orelse)
 
-    def opaque_loop(self, s):
-        """iteration over an unmodelled iterable: the body is explored once from a havocked state
-        (sound for frame / None-safety obligations; value obligations after it see havocked variables)."""
+    def opaque_loop(self, s, it=None):
+        """iteration without invariant (unmodelled iterable, or a frame-only contract): the body is explored once
+        from a havocked state - sound for frame / None-safety obligations, which hold in every state;
+        value obligations after the loop see havocked variables."""
         ctx = self.ctx
         mode = ctx.choose(2, "opaque-loop")
         names, mutated, attrs, calls = assigned_names([s])
         self.havoc_names(names | mutated, {}, opaque_ok=True)
+        self.havoc_fields(attrs, calls, {})
         if mode == 0:
             self.exec_block(s.orelse)
             return
-        self.bind_opaque(s.target)
+        bound = False
+        if it is not None and not isinstance(it, Opaque):
+            try:
+                ln, at = self.iter_model(it)
+                n = z3.Int(ctx.fresh_name("_it"))
+                ctx.assume(z3.And(0 <= n, n < ctx.term(ln, INT)))
+                self.bind(s.target, at(n))
+                bound = True
+            except Unsupported:
+                pass
+        if not bound:
+            self.bind_opaque(s.target)
         try:
             self.exec_block(s.body)
         except _Continue:
@@ -565,6 +586,7 @@ class StmtMixin:
         except _Break:
             return
         self.havoc_names(names | mutated, {}, opaque_ok=True)
+        self.havoc_fields(attrs, calls, {})
 
     def bind_opaque(self, target):
         if isinstance(target, ast.Name):
@@ -582,7 +604,7 @@ class StmtMixin:
             elif name in env:
                 cur = env[name]
                 ty = ctx.type_of(cur)
-                if cur is None:
+                if cur is None or (ty is not None and ty != OPQ and "Opaque" in repr(ty)):
                     ty = None
                 if ty is None:
                     if opaque_ok or isinstance(cur, (Closure, ClassRef, Builtin)):
